@@ -385,7 +385,7 @@ func (m *Machine) global(g *ssa.Global) *Value {
 	pkg := g.Pkg
 	if !m.inited[pkg] {
 		m.inited[pkg] = true
-		if m.eng.initAllowed(pkg) {
+		if m.initAllowed(pkg) {
 			m.runInit(pkg)
 		}
 	}
@@ -394,7 +394,7 @@ func (m *Machine) global(g *ssa.Global) *Value {
 	}
 	p := new(Value)
 	et := g.Type().(*types.Pointer).Elem()
-	if m.eng.initAllowed(pkg) {
+	if m.initAllowed(pkg) {
 		*p = zero(et)
 	} else {
 		*p = m.uninitGlobal(g, et)
@@ -494,7 +494,7 @@ func (m *Machine) callFunction(caller *frame, fn *ssa.Function, args []Value, en
 		}
 		m.unsupported("call of function without Go body: %s", name)
 	}
-	if m.initing > 0 && len(m.initPkgs) > 0 && fn.Pkg != nil && fn.Pkg != m.initPkgs[len(m.initPkgs)-1] && !m.eng.initAllowed(fn.Pkg) {
+	if m.initing > 0 && len(m.initPkgs) > 0 && fn.Pkg != nil && fn.Pkg != m.initPkgs[len(m.initPkgs)-1] && !m.initAllowed(fn.Pkg) {
 		// inside a package initialiser, a call into a foreign package that cannot be
 		// executed yields opaque results instead of aborting the whole initialiser
 		return m.callIsolated(caller, fn, args, env, name)
@@ -1134,4 +1134,16 @@ func (m *Machine) forkSite() {
 		m.res.ForkSites = map[string]int{}
 	}
 	m.res.ForkSites[m.where()]++
+}
+
+func (m *Machine) initAllowed(p *ssa.Package) bool {
+	if m.eng.initAllowed(p) {
+		return true
+	}
+	for _, a := range m.cfg.InitAllow {
+		if a == p.Pkg.Path() {
+			return true
+		}
+	}
+	return false
 }
